@@ -273,7 +273,7 @@ impl RepeatFamily {
 /// facts are ground, non-ground (`$_`, repeated variables, list patterns) or numerically
 /// look-alike (1 vs 1.0); G ground, partly bound or unbound at the call; G a call, a
 /// conjunction, a disjunction, a nested not, a unification or a comparison.
-pub struct NotFamily { pres: Vec<Option<G>>, gs: Vec<G>, posts: Vec<Option<G>>, queries: Vec<(String, Vec<T>)> }
+pub struct NotFamily { pub pres: Vec<Option<G>>, pub gs: Vec<G>, posts: Vec<Option<G>>, queries: Vec<(String, Vec<T>)> }
 
 impl NotFamily {
     pub fn new() -> NotFamily {
@@ -300,6 +300,8 @@ impl NotFamily {
         NotFamily { pres, gs, posts, queries }
     }
     pub fn total(&self) -> u64 { (self.pres.len() * self.gs.len() * self.posts.len() * self.queries.len() * 2) as u64 }
+    /// The knowledge base of the family without the clause for p/2.
+    pub fn base_clauses(&self) -> Vec<Clause> { let mut c = self.get(0).prog.clauses; c.retain(|cl| cl.name != "p" && cl.name != "rr"); c }
     pub fn get(&self, idx: u64) -> Case {
         let mut i = idx as usize;
         let mut take = |n: usize| { let k = i % n; i /= n; k };
